@@ -32,7 +32,8 @@ pub struct CorruptCase {
 // ---------------------------------------------------------------------------------------------
 
 pub fn sweep_images() -> Vec<SeedSpec> {
-    let mut v = vec![SeedSpec::Canned("minimal.mp4".into()), SeedSpec::CannedFrag, SeedSpec::Canned("extended_audio_object_type.mp4".into())];
+    // the richest image first: the quick tier enumerates a prefix of the list
+    let mut v = vec![SeedSpec::MetaAll { seed: 0 }, SeedSpec::Canned("minimal.mp4".into()), SeedSpec::CannedFrag, SeedSpec::Canned("extended_audio_object_type.mp4".into())];
     for s in 0..4 {
         v.push(SeedSpec::Frag { seed: s });
         v.push(SeedSpec::Mux { seed: s });
